@@ -30,11 +30,18 @@ def run(ctx):
         specs.append(dict(session=laws.make_session(rng, lo, hi, rng.choice([10, 30, 60]), neg=(i % 3 == 1)), fn="wass", emb=embs[(i + 3) % len(embs)], aux=["BT"] if (quick and i < 2) or (not quick and i < 8) else [],
                           zerotol=Fraction(1, 10 ** 9)))
     # small sessions too: ties and tiny diagrams
-    for i in range(30 if quick else 300):
-        specs.append(dict(session=laws.make_session(rng, 0, 6, rng.choice([3, 6]), neg=(i % 2 == 1)), fn=rng.choice(["bott", "wass"]), emb=embs[i % len(embs)], aux=[], zerotol=Fraction(1, 10 ** 9)))
+    embs2 = embs + EXACT_EMBS[4:6]      # incl. scales 2^-50 and 2^30
+    for i in range(36 if quick else 300):
+        specs.append(dict(session=laws.make_session(rng, 0, 6, rng.choice([3, 6]), neg=(i % 2 == 1), far=(i % 3 == 0)), fn=("bott", "wass")[(i // 3) % 2], emb=embs2[i % len(embs2)], aux=[], zerotol=Fraction(1, 10 ** 9)))
     for sp in specs:
         if sp["fn"] == "wass" and "aux" not in sp:
             sp["aux"] = []
+        # rounding allowance proportional to the coordinate magnitude: the code rotates by cos(pi/4), sin(pi/4), which differ by one ulp, so
+        # the distance of a point to the diagonal carries an error of about 1.1e-16 * |coordinate| (wasserstein(X, X) = -6.6e-11 at -3.3e5)
+        e = sp["emb"]
+        mx = max([abs(v) + abs(float(e.t / e.s)) for d in sp["session"] for p in d for v in p] + [1.0])
+        npts = max([len(d) for d in sp["session"]] + [1])
+        sp["zerotol"] = max(sp["zerotol"], Fraction(mx * npts * 4) / 10 ** 16)
     laws.run_sessions(ctx, specs, "V")
 
 
